@@ -1,8 +1,8 @@
-import Driver.OpsConvert
+import Driver.OpsProc
 namespace Driver
 
 def runOp (op : String) (args : List String) : String :=
-  let fs : List (String → List String → String) := [runOpLabel, runOpNav, runOpTransform, runOpThm, runOpEdit, runOpSplit, runOpAnalysis, runOpTrans, runOpGrammar, runOpWrite, runOpRead, runOpConvert]
+  let fs : List (String → List String → String) := [runOpLabel, runOpNav, runOpTransform, runOpThm, runOpEdit, runOpSplit, runOpAnalysis, runOpTrans, runOpGrammar, runOpWrite, runOpRead, runOpConvert, runOpProc]
   let rec go : List (String → List String → String) → String
     | [] => "UNKNOWN-OP " ++ op
     | f :: rest => let r := f op args; if r == unknownOp then go rest else r
